@@ -45,7 +45,7 @@ PROPS = {
     },
     "C06": {
         "quick": [("cycle", 42, 60), ("limits", 30, 80), ("fork", 60, 80), ("ser", 24, 60)],
-        "thorough": [("cycle", 560, 1500), ("limits", 300, 200), ("fork", 1500, 160), ("ser", 300, 120)],
+        "thorough": [("cycle", 560, 1500), ("cycle", 2, 9000), ("limits", 300, 200), ("fork", 1500, 160), ("ser", 300, 120)],   # ("cycle", 2, 9000): one history of 72 000 cycles (a 16-bit counter would wrap)
         "rule": "create-put-read cycles over a rotating id set with k = 0..13 long-lived groups, four orders of put/bind/add per cycle; non-trivial = at least 15 collections in one history (the 14 slots have wrapped around)",
         "nontrivial": "cycles",
         "modelled": CORE_MODELLED,
@@ -200,8 +200,9 @@ def variants(prop, ops, seed):
     if prop != "C19":
         return []
     out = []
-    for name, (fn, fc) in {"n16c256": (lambda n: 16, lambda c: 256),
-                           "nplus": (lambda n: min(16, n + 1), lambda c: c + 3),
+    nxt = lambda n: n + 1 if n < 17 else 33 if n < 33 else 64      # the harness has N = 1..17, 33, 64
+    for name, (fn, fc) in {"n16c256": (lambda n: max(16, n), lambda c: max(256, c)),
+                           "nplus": (nxt, lambda c: c + 3),
                            "bigcap": (lambda n: n, lambda c: 2 * c + 1),
                            "again": (lambda n: n, lambda c: c)}.items():
         v = []
